@@ -361,27 +361,35 @@ def culprit(calls: list[dict[str, Any]], fresh: list[dict[str, Any]], i: int) ->
     return None
 
 
+def has_exc_log(c: dict[str, Any]) -> bool:
+    p = c["prog"]
+    logs = list(p.get("logs") or []) + list(p.get("init_logs") or []) + [l for st in p.get("steps") or [] for l in st["logs"]]
+    return any(l[0] == "EXCEPTION" for l in logs)
+
+
 def key_for(c: dict[str, Any] | None, fv: dict[str, Any] | None = None) -> str:
-    """Finding class of a culprit call; ``fv`` = what the call does alone on a fresh connection (real code)."""
+    """Finding class of a culprit call, from WHAT the call is (not from the generator's label) and from what it does
+    alone on a fresh connection of the real code (``fv``).  Model-free: usable when the translation / model is broken."""
     if c is None:
         return "connection-unusable-after-ordinary-calls"
-    lab = c["label"]
-    srv_dead = fv is not None and (fv["state"]["srv"].startswith("dead") or fv["state"]["srv"] == "returned")
-    headerless_stream = c["kind"] != "unary" and not c["h"]
-    if lab in ("bad_return", "missing_header"):
-        if srv_dead and fv is not None and fv["state"]["srv"].startswith("dead"):
-            return KEY_BAD_RETURN if lab == "bad_return" else KEY_MISSING_HEADER
-        # the (repaired) server answered the fault like an init error
-        return KEY_HEADERLESS if headerless_stream else "connection-unusable-after:" + lab
-    if lab == "cb_raise_unary":
-        return KEY_CB_UNARY
-    if lab == "cb_raise_stream":
+    srv = fv["state"]["srv"] if fv is not None else ""
+    generic = "connection-unusable-after:" + c["label"]
+    if c["kind"] == "unary":
+        return KEY_CB_UNARY if c["mode"] == "raise" and c["via"] == "main" else generic
+    headerless = not c["h"]
+    prog = c["prog"]
+    fault = "bad_return" if prog["init"] == "bad_return" else ("missing_header" if prog["init"] == "ok" and c["h"] and prog["header"] is None else None)
+    if c["via"] == "main" and fault is not None:
+        if srv.startswith("dead"):
+            return KEY_BAD_RETURN if fault == "bad_return" else KEY_MISSING_HEADER
+        return KEY_HEADERLESS if headerless else generic        # the (repaired) server answered the fault like an init error
+    if c["via"] != "main" or isinstance(prog["init"], dict):
+        return KEY_HEADERLESS if headerless else generic
+    if c["mode"] == "raise":
         return KEY_CB_STREAM
-    if lab in ("init_error", "unknown_method", "version_rejection", "param_rejection") and headerless_stream:
-        return KEY_HEADERLESS
-    if lab == "exc_log" and c["kind"] != "unary":
+    if has_exc_log(c):
         return KEY_EXC_LOG
-    return "connection-unusable-after:" + lab
+    return generic
 
 
 def is_open_abandon(c: dict[str, Any], fresh: dict[str, Any]) -> bool:
@@ -424,8 +432,8 @@ def run(ctx: Any) -> None:
     ctx.prove(
         ["prop/P_C04.vo", "refuted/R_C04.vo", "tie/T_Wire.vo"],
         {
-            "P_C04": ["C04_obs_is_run_pipe", "C04_clean_after", "C04_unary_clean_whatever_the_callback", "C04_history_correct", "C04_next_call_correct",
-                      "C04_next_call_reference", "C04_no_stuck"],
+            "P_C04": ["C04_obs_is_run_pipe", "C04_guards_catch_every_fault", "C04_clean_after", "C04_unary_clean_whatever_the_callback", "C04_history_correct",
+                      "C04_next_call_correct", "C04_next_call_reference", "C04_wellbehaved_reference", "C04_no_stuck"],
             "T_Wire": ["wire_handlers_tie"],
         },
     )
@@ -487,7 +495,7 @@ def run(ctx: Any) -> None:
                 continue
             # call i blocks even on a fresh connection -> it is the culprit itself; otherwise something before it broke the connection
             cu = calls[i] if tr == exp else culprit(calls, fresh, i)
-            if cu is not None and cu["label"] == "abandon" and is_open_abandon(cu, real.fresh_view(cu)):
+            if cu is not None and is_open_abandon(cu, real.fresh_view(cu)):
                 verdict = "desync after an abandoned OPEN session (not an ended call)"
                 break
             verdict = key_for(cu, real.fresh_view(cu) if cu is not None else None)
@@ -549,16 +557,24 @@ def run(ctx: Any) -> None:
     for i in bad2[:3]:
         shown = ctx.coq_show(HEADER, f"rs {seq_cases[i][0]}")
         ctx.violation("model-impl-disagree:run_seq", "implementation and model disagree on a history", {"calls": hists[i], "impl": seq_cases[i][1][:2500], "model": shown[-1800:]})
-    # the proven class on the implementation: wellbehaved (evaluated in Coq) => the REAL connection is clean afterwards
+    # the proven class on the implementation: wellbehaved (evaluated in Coq) => the REAL connection is clean afterwards.
+    # A dirty call is reported under `dirty-inside-the-proven-class` only when Coq really placed it inside; when the
+    # evaluation is unavailable (broken translation / model) every dirty single call is reported under the class the
+    # real code puts it in (key_for is model-free), so a known class never shows up under another name.
     inside = 0
     notwb_set = set(notwb)
     for i, c in enumerate(view_calls):
-        if i in notwb_set:
-            continue
-        inside += 1
         fv = real.fresh_view(c)
-        if fv["state"]["s2c"] or fv["state"]["srv"] != "top" or fv["cli"] != "idle" or fv["state"]["c2s_unread"]:
-            ctx.violation("dirty-inside-the-proven-class", "the real connection is not clean after a call that satisfies `wellbehaved`", {"call": c, "state": fv["state"], "cli": fv["cli"], "trace": fv["trace"]})
+        dirty = leaves_dirty(fv)
+        if ok3:
+            if i in notwb_set:
+                continue
+            inside += 1
+            if dirty:
+                ctx.violation("dirty-inside-the-proven-class", "the real connection is not clean after a call that satisfies `wellbehaved`", {"call": c, "state": fv["state"], "cli": fv["cli"], "trace": fv["trace"]})
+        elif dirty and not is_open_abandon(c, fv):
+            ctx.violation(key_for(c, fv), "the real connection is not clean after this call, alone on a fresh connection (class decided on the real code; the model's class could not be evaluated)",
+                          {"call": c, "state": fv["state"], "cli": fv["cli"], "trace": fv["trace"]})
     ctx.count("single_calls_inside_proven_class", inside)
     ctx.count("single_calls_outside_proven_class", len(notwb))
     ctx.obligation("oracle:proven-class-is-clean-on-implementation", "correspondence", ok3 and inside > 0, log3 if not ok3 else f"{inside} single calls inside `wellbehaved`, all clean on the real connection")
